@@ -2,6 +2,8 @@
 # tools/seedall.sh <patch.diff> : applies the patch to a throw-away worktree of /repo (never to
 # /repo itself) and runs EVERY rule once against it (pseudo-property ALL); prints only alarms.
 patch="$1"
+# a seed whose patch no longer applies to HEAD (a later fix: touched the same lines) carries a re-based copy
+[ -f "${patch%.diff}.head.diff" ] && patch="${patch%.diff}.head.diff"
 wt=$(mktemp -d /tmp/seedwt.XXXXXX)
 git -C /repo worktree add --detach "$wt" HEAD >/dev/null 2>&1 || { echo "worktree failed"; exit 2; }
 if ! git -C "$wt" apply "$patch" 2>/dev/null; then
